@@ -23,8 +23,10 @@ MCPresNone == {0}
 MCSufsNone == {0}
 MCPresLong == {0, 1, 2, 15, 16, 17, 40, 200}
 MCSufsLong == {0, 1, 20}
+MCSufsShort == {0, 1}
 MCFillsOne == {"out4"}
 MCFillsAll == MCAddrs
+MCFillsSome == {"inA", "out4", "zoneC"}
 MCHttp == {"http"}
 MCTcp  == {"tcp"}
 MCBoth == {"http", "tcp"}
@@ -38,7 +40,7 @@ CaseJson(r, q) == [allow |-> r.allow, deny |-> r.deny,
 GenReq(q) == /\ ChooseReq(q)
              /\ PrintT(ToJson(CaseJson(rules, q)))
 \* the generator stops after the request is chosen (the gate itself is decided by the MC run)
-GenNext == \/ \E c \in Configs : ChooseRules(c)
-           \/ \E q \in Reqs : GenReq(q)
+GenNext == \/ (phase = "rules" /\ \E c \in Configs : ChooseRules(c))
+           \/ (phase = "req" /\ \E q \in Reqs : GenReq(q))
 GenSpec == Init /\ [][GenNext]_vars
 =============================================================================
